@@ -35,8 +35,15 @@ pub enum Case {
 
 /// remove every occurrence of the pattern (keeps the junk precondition by construction)
 pub fn scrub(mut j: Vec<u8>) -> Vec<u8> {
-    while let Some(k) = refcodec::find_pattern(&j) {
-        j[k + 3] = 0x02;
+    // one pass: changing the last byte of an occurrence cannot create a new occurrence further left
+    let mut i = 0;
+    while i + 4 <= j.len() {
+        if &j[i..i + 4] == b"DLT\x01" {
+            j[i + 3] = 0x02;
+            i += 4;
+        } else {
+            i += 1;
+        }
     }
     j
 }
@@ -201,16 +208,28 @@ pub fn strategy() -> impl Strategy<Value = Case> {
         b
     });
     prop_oneof![
-        2 => prop_oneof![vec(any::<u8>(), 0..80), vec(prop::sample::select(vec![b'D', b'L', b'T', 1u8]), 0..24), planted].prop_map(Case::Search),
-        1 => (any::<u64>(), 0usize..70_000, 1u8..6, any::<u16>()).prop_map(|(s, l, a, p)| {
+        300 => prop_oneof![vec(any::<u8>(), 0..80), vec(prop::sample::select(vec![b'D', b'L', b'T', 1u8]), 0..24), planted].prop_map(Case::Search),
+        150 => (any::<u64>(), 0usize..70_000, 1u8..6, any::<u16>()).prop_map(|(s, l, a, p)| {
             let mut b = expand_bytes(s, l, a);
             let k = (p as usize * (b.len() + 1)) >> 16;
             b.splice(k..k, b"DLT\x01".iter().cloned());
             Case::Search(b)
         }),
-        4 => (junk(), prop_oneof![8 => stored(), 1 => g::message(g::MsgParams { storage: g::StorageMode::Always, ..Default::default() })], g::suffix(), fidx())
+        // more than a megabyte in one slice
+        1 => prop_oneof![
+            (any::<u64>(), 1_048_000usize..2_600_000, 1u8..6, any::<u16>(), any::<bool>()).prop_map(|(s, l, a, p, plant)| {
+                let mut b = scrub(expand_bytes(s, l, a));
+                if plant {
+                    let k = b.len() - 1 - ((p as usize * 70_000) >> 16).min(b.len() - 1);
+                    b.splice(k..k, b"DLT\x01".iter().cloned());
+                }
+                Case::Search(b)
+            }),
+            (any::<u64>(), 1_048_000usize..2_600_000, 1u8..6, stored(), g::suffix(), fidx()).prop_map(|(s, l, a, msg, suffix, filter)| Case::Parse { junk: scrub(expand_bytes(s, l, a)), msg, suffix, filter }),
+        ],
+        600 => (junk(), prop_oneof![8 => stored(), 1 => g::message(g::MsgParams { storage: g::StorageMode::Always, ..Default::default() })], g::suffix(), fidx())
             .prop_map(|(junk, msg, suffix, filter)| Case::Parse { junk, msg, suffix, filter }),
-        2 => (vec(stored(), 1..6), vec(junk(), 7), fidx()).prop_map(|(msgs, junks, filter)| Case::Stream { msgs, junks, filter }),
+        300 => (vec(stored(), 1..6), vec(junk(), 7), fidx()).prop_map(|(msgs, junks, filter)| Case::Stream { msgs, junks, filter }),
     ]
 }
 
